@@ -34,7 +34,60 @@ func init() {
 
 // ---------------------------------------------------------------- parent
 
+// the inventory of circuit.Circuit's fields and of the receiver-field writes /
+// address-takings / method calls in Garble, Eval, Compute (and the *Circuit
+// methods they call) that Circuit/Pool.v was written against
+var c17ExpectedInventory = []string{
+	"Compute:call:Outputs.Size",
+	"Eval:addr:Gates",
+	"Garble:addr:Gates",
+	"Garble:call:Inputs.Size",
+	"field:Gates",
+	"field:Inputs",
+	"field:NumGates",
+	"field:NumWires",
+	"field:Outputs",
+	"field:Stats",
+	"field:garblePool",
+	"garbleScratchPool:call:garblePool.CompareAndSwap",
+	"garbleScratchPool:call:garblePool.Load",
+}
+
+func c17CheckInventory(c *Ctx) {
+	repo := os.Getenv("VERIF_REPO")
+	if repo == "" {
+		repo = "/repo"
+	}
+	inv, err := c17Inventory(repo)
+	if err != nil {
+		c.Fail("c17:circuit-shared-state:scan-failed", err.Error(), map[string]interface{}{"repo": repo})
+		return
+	}
+	exp := map[string]bool{}
+	for _, s := range c17ExpectedInventory {
+		exp[s] = true
+	}
+	got := map[string]bool{}
+	for _, s := range inv {
+		got[s] = true
+		c.Eval("inventory/"+s, false)
+		if !exp[s] {
+			c.Fail("c17:circuit-shared-state:unmodelled:"+s,
+				"Garble/Eval/Compute (or a *Circuit method they call) touch state of circuit.Circuit that the model of Circuit/Pool.v does not have: "+s+
+					" (the model has one mutable field, garblePool, accessed by atomic Load/CompareAndSwap only; everything else is read-only)",
+				map[string]interface{}{"repo": repo, "inventory": inv, "expected": c17ExpectedInventory})
+		}
+	}
+	for _, s := range c17ExpectedInventory {
+		if !got[s] {
+			c.Note("source inventory: expected item %q no longer present", s)
+		}
+	}
+	c.Hist(fmt.Sprintf("inventory-items:%d", len(inv)))
+}
+
 func runC17(c *Ctx) error {
+	defer c17CheckInventory(c) // after the dynamic evidence, so that a concrete failing run comes first
 	childOut := filepath.Join(c.OutDir, "child")
 	cmd := exec.Command(os.Args[0], "c17child", "-seed", fmt.Sprint(c.Seed), "-tier", c.Tier, "-out", childOut)
 	cmd.Env = append(os.Environ(), "GORACE=halt_on_error=0 exitcode=66")
@@ -267,6 +320,11 @@ func randBits(r *RNG, n int) []bool {
 func runC17Child(c *Ctx) error {
 	if raceEnabled {
 		fmt.Fprintln(os.Stderr, "c17child: race detector on")
+	}
+	for sr := 0; sr < c.N(8, 120); sr++ {
+		if err := c17Sessions(c, sr); err != nil {
+			return err
+		}
 	}
 	rounds := c.N(60, 1500)
 	keyLens := []int{16, 24, 32}
@@ -614,4 +672,164 @@ func labelsEq(a, b []ot.Label) bool {
 		}
 	}
 	return true
+}
+
+// c17Sessions: several garbled sessions over ONE compiled circuit, every
+// session with its own random key and its own garbling; all sessions evaluate
+// concurrently in tight loops.  Every result must be the result of the same
+// session evaluated alone (on a fresh copy of the circuit).
+func c17Sessions(c *Ctx, sr int) error {
+	r := c.rng.Fork()
+	circ := GenCircuit(r, GenOpts{MinIn: 2, MaxIn: 6, MinGates: 4, MaxGates: 14, MaxOut: 4, Overwrite: true})
+	ni := circ.Inputs.Size()
+	S := r.Range(8, 16)
+	iters := c.N(1500, 6000)
+	const nx = 4
+	type sess struct {
+		key    []byte
+		g      *circuit.Garbled
+		blocks []ot.Label
+		xs     [][]bool
+		solo   [][]ot.Label
+		sdec   [][]int
+		bad    int
+		badX   int
+		badOut []ot.Label
+		badDec []int
+		errs   string
+	}
+	ss := make([]*sess, S)
+	keyLens := []int{16, 24, 32}
+	gseeds := make([]uint64, S)
+	for i := range gseeds {
+		gseeds[i] = r.U64()
+	}
+	mk := func(i int) error {
+		s := ss[i]
+		rd := &blockLog{r: NewRNG(gseeds[i])}
+		g, err := circ.Garble(rd, s.key)
+		if err != nil {
+			return err
+		}
+		s.g, s.blocks = g, rd.blocks
+		return nil
+	}
+	for i := range ss {
+		ss[i] = &sess{key: r.Bytes(keyLens[(sr+i)%3])}
+		for x := 0; x < nx; x++ {
+			ss[i].xs = append(ss[i].xs, randBits(r, ni))
+		}
+	}
+	if sr%2 == 0 {
+		for i := range ss {
+			if err := mk(i); err != nil {
+				return err
+			}
+		}
+	} else {
+		var wg sync.WaitGroup
+		errs := make([]error, S)
+		for i := range ss {
+			wg.Add(1)
+			go func(i int) { defer wg.Done(); errs[i] = mk(i) }(i)
+		}
+		wg.Wait()
+		for _, e := range errs {
+			if e != nil {
+				return e
+			}
+		}
+	}
+	// each session alone, on a fresh copy of the circuit
+	for _, s := range ss {
+		solo := freshCopy(circ)
+		for _, x := range s.xs {
+			o, d, err := evalOn(solo, s.key, s.g.Wires, s.g.Gates, x)
+			if err != nil {
+				return fmt.Errorf("solo Eval: %v", err)
+			}
+			s.solo = append(s.solo, o)
+			s.sdec = append(s.sdec, d)
+			if bitsString(decBits(d)) != bitsString(TruthEval(circ, x)) {
+				c.Fail("c17:wrong-result", "solo garbled evaluation differs from the truth table",
+					map[string]interface{}{"circuit": circuitText(circ), "key": fmt.Sprintf("%x", s.key), "x": bitsString(x)})
+			}
+		}
+	}
+	// all sessions at once
+	start := make(chan struct{})
+	var wg sync.WaitGroup
+	for _, s := range ss {
+		wg.Add(1)
+		go func(s *sess) {
+			defer wg.Done()
+			defer func() {
+				if p := recover(); p != nil {
+					s.errs = fmt.Sprintf("panic: %v", p)
+				}
+			}()
+			<-start
+			for it := 0; it < iters; it++ {
+				xi := it % nx
+				o, d, err := evalOn(circ, s.key, s.g.Wires, s.g.Gates, s.xs[xi])
+				if err != nil {
+					s.errs = err.Error()
+					return
+				}
+				if !labelsEq(o, s.solo[xi]) || fmt.Sprint(d) != fmt.Sprint(s.sdec[xi]) {
+					if s.bad == 0 {
+						s.badX, s.badOut, s.badDec = xi, o, d
+					}
+					s.bad++
+				}
+			}
+		}(s)
+	}
+	close(start)
+	wg.Wait()
+	dims, gs := CircuitSX(circ)
+	emitted := false
+	totalBad := 0
+	for i, s := range ss {
+		c.Eval(fmt.Sprintf("sessions/%d/%d", sr, i), true)
+		rep := map[string]interface{}{"seed": c.Seed, "sessions_round": sr, "session": i, "sessions": S, "iterations": iters,
+			"circuit": circuitText(circ), "key": fmt.Sprintf("%x", s.key)}
+		if s.errs != "" {
+			c.Fail("c17:concurrent-eval-shared-circuit:error", s.errs, rep)
+			continue
+		}
+		totalBad += s.bad
+		xi, outl, dec := 0, s.solo[0], s.sdec[0]
+		if s.bad > 0 {
+			xi, outl, dec = s.badX, s.badOut, s.badDec
+			rep["x"] = bitsString(s.xs[xi])
+			rep["wrong_evaluations"] = s.bad
+			rep["got_decoded"] = fmt.Sprint(dec)
+			rep["solo_decoded"] = fmt.Sprint(s.sdec[xi])
+			c.Fail("c17:concurrent-eval-shared-circuit:different-keys",
+				fmt.Sprintf("%d of %d evaluations of session %d (own key, own garbling), run concurrently with %d other sessions on the same *circuit.Circuit, differ from the session evaluated alone",
+					s.bad, iters, i, S-1), rep)
+		}
+		// one session per round (a failing one if there is any) goes to the C01 model
+		if !emitted && (s.bad > 0 || i == S-1) {
+			emitted = true
+			comp, err := circ.Compute(SplitInputs(circ, s.xs[xi]))
+			if err != nil {
+				return err
+			}
+			in := L(Bytes(s.key), dims, gs, Labels(s.blocks), Bits(s.xs[xi]), L())
+			decs := make([]SX, len(dec))
+			for k, d := range dec {
+				decs[k] = I(d)
+			}
+			obs := L(Label(s.g.R), wiresSX(s.g.Wires), tablesSX(s.g.Gates), Labels(outl), L(decs...), Bits(JoinOutputs(circ, comp)))
+			c.Case(L(I(0), in), obs)
+		}
+	}
+	c.Hist(fmt.Sprintf("sessions:%d", S))
+	c.Hist(fmt.Sprintf("sessions-wrong-evals:%v", totalBad > 0))
+	for _, s := range ss {
+		s.g.Release()
+	}
+	return nil
 }
